@@ -103,16 +103,18 @@ def _worker_entry(batch, deadline, per_batch_timeout):
 
 
 def run_parallel(fn, ctx, items, nproc=None, deadline=None, chunk=20, per_batch_timeout=600, mark_dir=None):
-    per_batch_timeout = int(os.environ.get("VERIF_BATCH_TIMEOUT", per_batch_timeout))
     """Runs fn(ctx, item) for every item on forked workers (ctx is inherited, not pickled).
     Returns (results [(item, value)], skipped [item], crashed [{'item', 'detail'}]) — crashed = the
-    items in flight when a worker process died (only attributed when mark_dir is given)."""
+    items in flight when a worker process died (only attributed when mark_dir is given).
+    Batches are submitted a window at a time (a thorough tier names millions of runs: they are neither
+    materialised nor sent to the workers once the deadline has passed)."""
+    per_batch_timeout = int(os.environ.get("VERIF_BATCH_TIMEOUT", per_batch_timeout))
     global _WORKER_FN, _WORKER_CTX, _WORKER_MARK
     nproc = nproc or NPROC
     _WORKER_FN, _WORKER_CTX, _WORKER_MARK = fn, ctx, mark_dir
-    items = list(items)
-    indexed = list(enumerate(items))
-    batches = [indexed[i:i + chunk] for i in range(0, len(indexed), chunk)]
+    if not (hasattr(items, '__len__') and hasattr(items, '__getitem__')):
+        items = list(items)
+    n = len(items)
     results, skipped, crashed = [], [], []
 
     def absorb(recs):
@@ -122,37 +124,62 @@ def run_parallel(fn, ctx, items, nproc=None, deadline=None, chunk=20, per_batch_
             else:
                 skipped.append(items[idx])
     if nproc <= 1:
-        for b in batches:
-            absorb(_worker_entry(b, deadline, per_batch_timeout))
+        for i in range(0, n, chunk):
+            if deadline is not None and time.time() > deadline:
+                skipped.extend(items[j] for j in range(i, n))
+                break
+            absorb(_worker_entry([(j, items[j]) for j in range(i, min(n, i + chunk))], deadline, per_batch_timeout))
         return results, skipped, crashed
     mp = multiprocessing.get_context('fork')
-    pending = list(batches)
+    state = {'next': 0}
+    retry = []              # batches that were in flight when a worker died
+    dead = set()
     rounds = 0
-    while pending:
+    while True:
         rounds += 1
         broken = False
-        done_ids = set()
+        inflight = {}
         with cf.ProcessPoolExecutor(max_workers=nproc, mp_context=mp) as ex:
-            futs = {ex.submit(_worker_entry, b, deadline, per_batch_timeout): k for k, b in enumerate(pending)}
+            def submit_more():
+                while len(inflight) < 4 * nproc:
+                    if retry:
+                        b = [(j, it) for j, it in retry.pop() if j not in dead]
+                    elif state['next'] < n:
+                        if deadline is not None and time.time() > deadline:
+                            skipped.extend(items[j] for j in range(state['next'], n))
+                            state['next'] = n
+                            return
+                        i = state['next']
+                        state['next'] = min(n, i + chunk)
+                        b = [(j, items[j]) for j in range(i, state['next'])]
+                    else:
+                        return
+                    if b:
+                        inflight[ex.submit(_worker_entry, b, deadline, per_batch_timeout)] = b
             try:
-                for f in cf.as_completed(futs):
-                    try:
-                        recs = f.result()
-                    except cf.process.BrokenProcessPool:
-                        broken = True
-                        continue
-                    done_ids.add(futs[f])
-                    absorb(recs)
+                submit_more()
+                while inflight:
+                    done, _ = cf.wait(list(inflight), return_when=cf.FIRST_COMPLETED)
+                    for f in done:
+                        b = inflight.pop(f)
+                        try:
+                            absorb(f.result())
+                        except cf.process.BrokenProcessPool:
+                            broken = True
+                            retry.append(b)
+                    if broken:
+                        break
+                    submit_more()
             except cf.process.BrokenProcessPool:
                 broken = True
-        pending = [b for k, b in enumerate(pending) if k not in done_ids]
+            if broken:
+                retry.extend(inflight.values())
+                inflight.clear()
         if not broken:
-            if pending:
-                raise HarnessFailure('batches left unfinished without a worker death')
             break
         if mark_dir is None:
             raise HarnessFailure('worker process died (no crash attribution requested)')
-        dead = set()
+        newly = set()
         for name in os.listdir(mark_dir):
             if name.startswith('timeout-'):
                 raise HarnessFailure(f'a worker exceeded its time limit of {per_batch_timeout}s (item index in '
@@ -160,15 +187,14 @@ def run_parallel(fn, ctx, items, nproc=None, deadline=None, chunk=20, per_batch_
             p = os.path.join(mark_dir, name)
             try:
                 rec = json.loads(open(p).read())
-                dead.add(rec['index'])
+                newly.add(rec['index'])
                 crashed.append({'item': items[rec['index']], 'detail': rec['detail']})
             except Exception:
                 pass
             os.remove(p)
-        if not dead or rounds > 50:
+        if not newly or rounds > 50:
             raise HarnessFailure('worker process died and the item in flight could not be identified')
-        pending = [[(i, it) for i, it in b if i not in dead] for b in pending]
-        pending = [b for b in pending if b]
+        dead |= newly
     return results, skipped, crashed
 
 
